@@ -44,6 +44,19 @@ OUTPUTS = {'F': {'x': 1}, 'W': {'a': 1, 'b': 2}, 'W2': {'a': 1, 'b': 2, 'c': 3},
 TAGS = [None, 'a', 'b']
 
 
+class ConfirmingCommunicator(kiwipy.LocalCommunicator):
+    """LocalCommunicator hands back nothing for a task sent with no_reply; a broker-backed communicator hands back a
+    future for the delivery confirmation, which is what the controllers wait for."""
+
+    def task_send(self, task, no_reply=False):
+        result = super().task_send(task, no_reply)
+        if no_reply:
+            confirmation = kiwipy.Future()
+            confirmation.set_result(None)
+            return confirmation
+        return result
+
+
 def enumerate_cases(tier, scope):
     configs = [(p, loader, via, lc) for p in ('none', 'memory', 'pickle') for loader in ('default', 'custom') for via in ('direct', 'comm') for lc in ('none', 'given')]
     singles = []
@@ -53,6 +66,7 @@ def enumerate_cases(tier, scope):
             for nowait in (False, True):
                 singles.append(['launch', prog, 1, persist, nowait])
     singles += [['continue', 1, None, False], ['continue', 1, 'a', True], ['bogus']]
+    singles += [['execute', 'F', 1, nowait, no_reply] for nowait in (False, True) for no_reply in (False, True)]
     if scope == 'single':
         for cfg in configs:
             for op in singles:
@@ -72,6 +86,8 @@ def enumerate_cases(tier, scope):
             for first in firsts:
                 for second in seconds:
                     yield {'persister': cfg[0], 'loader': cfg[1], 'via': cfg[2], 'load_context': cfg[3], 'ops': [first] + second}
+                    if second is seconds[0] and cfg[2] == 'direct':
+                        yield {'persister': cfg[0], 'loader': cfg[1], 'via': cfg[2], 'load_context': cfg[3], 'launcher_loop': 'none', 'ops': [first] + second}
 
 
 @st.composite
@@ -79,7 +95,7 @@ def _cases(draw, tier):
     n = draw(st.integers(1, 12))
     ops = []
     for _ in range(n):
-        kind = draw(st.sampled_from(['create', 'launch', 'launch', 'continue', 'continue', 'checkpoint', 'resume', 'resume', 'bogus']))
+        kind = draw(st.sampled_from(['create', 'launch', 'launch', 'continue', 'continue', 'checkpoint', 'resume', 'resume', 'bogus', 'execute']))
         pid = draw(st.integers(1, 3))
         if kind == 'create':
             ops.append(['create', draw(st.sampled_from(list(PROGS))), pid, draw(st.booleans())])
@@ -91,6 +107,8 @@ def _cases(draw, tier):
             ops.append(['checkpoint', pid, draw(st.sampled_from(TAGS))])
         elif kind == 'resume':
             ops.append(['resume', pid])
+        elif kind == 'execute':
+            ops.append(['execute', 'F', pid + 10 * len(ops), draw(st.booleans()), draw(st.booleans())])  # a fresh pid each time
         else:
             ops.append(['bogus'])
     return {
@@ -98,6 +116,7 @@ def _cases(draw, tier):
         'loader': draw(st.sampled_from(['default', 'custom'])),
         'via': draw(st.sampled_from(['direct', 'comm'])),
         'load_context': draw(st.sampled_from(['none', 'given'])),
+        'launcher_loop': draw(st.sampled_from(['given', 'none'])),
         'ops': ops,
     }
 
@@ -148,11 +167,13 @@ def execute(case):
             persister = persistence.PicklePersister(tmpdir)
         loader = custom if case['loader'] == 'custom' else None
         with loop.as_running():
-            load_context = persistence.LoadSaveContext(harness_note='given') if case.get('load_context') == 'given' else None
-            launcher = process_comms.ProcessLauncher(loop=loop, persister=persister, load_context=load_context, loader=loader)
+            # what the caller puts into the load context reaches the continued processes: here a communicator of its own
+            ctx_comm = kiwipy.LocalCommunicator() if case.get('load_context') == 'given' else None
+            load_context = persistence.LoadSaveContext(harness_note='given', communicator=ctx_comm) if case.get('load_context') == 'given' else None
+            launcher = process_comms.ProcessLauncher(loop=None if case.get('launcher_loop') == 'none' else loop, persister=persister, load_context=load_context, loader=loader)
             comm = None
             if case['via'] == 'comm':
-                comm = communications.LoopCommunicator(kiwipy.LocalCommunicator(), loop)
+                comm = communications.LoopCommunicator(ConfirmingCommunicator(), loop)
                 comm.add_task_subscriber(launcher)
         classes_by_prog = {name: make_class(prog) for name, prog in PROGS.items()}
         store = {}  # (pid, tag) -> (prog, steps done)
@@ -172,6 +193,13 @@ def execute(case):
             new = known_instances()[before:]
             for proc in new:
                 instances.append({'proc': proc, 'prog': prog, 'base': base, 'started': started, 'origin': origin})
+                if origin == 'continue' and prog != '?':
+                    # a continued process lives on the launcher's loop (the current one if none was named) and has what
+                    # the caller's load context carries
+                    if proc.loop is not loop:
+                        v('continued-process-loop', f'pid {proc.pid}: the continued process has loop {proc.loop!r}')
+                    if ctx_comm is not None and proc._communicator is not ctx_comm:
+                        v('load-context-dropped', f'pid {proc.pid}: the communicator of the given load context did not reach the continued process (it has {proc._communicator!r})')
             return new
 
         def run_until(pred, max_ticks=3000):
@@ -287,6 +315,33 @@ def execute(case):
                         if proc.pid == op[1] and inst['started'] and proc.state.value == 'waiting':
                             proc.resume('rv')
                 loop.drain()
+            elif kind == 'execute':
+                # the client-side shorthand RemoteProcessController.execute_process = create (persisting) then continue,
+                # with the caller's nowait / no_reply flags
+                prog, pid, nowait, no_reply = op[1], op[2], op[3], op[4]
+                if comm is None or persister is None:
+                    hist.append(op)
+                    continue
+                classes.add('execute')
+                ident_loader = custom if loader is not None else None
+                with loop.as_running():
+                    ctl = process_comms.RemoteProcessController(comm)
+                    task = loop.create_task(ctl.execute_process(classes_by_prog[prog], init_kwargs={'pid': pid}, loader=ident_loader, nowait=nowait, no_reply=no_reply))
+                    task._pv_owned = True
+                loop.drain()
+                new = known_instances()[before:]
+                created = [p for p in new if p.state.value == 'created' and not any(e['k'] == 'enter' and e['oid'] == id(p) for e in w.trace.get(p.pid, []))]
+                if len(new) != 2 or len(created) != 1:
+                    v('execute-instances', f'{where}: expected one created and one continued instance, got {[(p.pid, p.state.value) for p in new]}')
+                else:
+                    runner = [p for p in new if p is not created[0]][0]
+                    instances.append({'proc': created[0], 'prog': prog, 'base': 0, 'started': False, 'origin': 'create'})
+                    instances.append({'proc': runner, 'prog': prog, 'base': 0, 'started': True, 'origin': 'continue'})
+                    store[(pid, None)] = (prog, 0)
+                    out = ('ok', task.result()) if task.done() and not task.cancelled() and task.exception() is None else (('raise', task.exception()) if task.done() and not task.cancelled() else ('pending',))
+                    want = ('ok', None) if no_reply else (('ok', pid) if nowait else ('ok', OUTPUTS[prog]))
+                    if out != want:
+                        v('execute-reply', f'{where}: execute_process returned {out!r}, expected {want!r}')
             elif kind == 'bogus':
                 classes.add('rejected')
                 fut = send({'task': 'no-such-task', 'args': {}})
